@@ -10,7 +10,10 @@ sys.path.insert(0, os.path.dirname(os.path.abspath(__file__)))
 import rustshape
 
 VERIF = os.path.dirname(os.path.dirname(os.path.abspath(__file__)))
-SOURCES = {"gds": "/repo/gds21/src/data.rs", "lef": "/repo/lef21/src/data.rs"}
+REPO = os.environ.get("VERIF_REPO", "/repo")
+COQ_DIR = os.environ.get("VERIF_COQ_DIR", os.path.join(VERIF, "coq"))
+GEN_WORK = os.environ.get("VERIF_GEN_WORK", os.path.join(VERIF, "work", "gen"))
+SOURCES = {"gds": REPO + "/gds21/src/data.rs", "lef": REPO + "/lef21/src/data.rs"}
 ROOTS = {"gds": "GdsLibrary", "lef": "LefLibrary"}
 
 INTS = {"i8": (-128, 127), "i16": (-32768, 32767), "i32": (-2**31, 2**31 - 1), "i64": (-2**63, 2**63 - 1),
@@ -201,8 +204,8 @@ def main():
             out.append("Definition ty_%s_%s : ty :=\n  %s.\n" % (key, name, coq_ty(sh, "ty_" + key)))
         out.append("Definition %s_library_ty : ty := ty_%s_%s.\n" % (key, key, ROOTS[key]))
         js[key] = {"root": ROOTS[key], "types": {n: s for n, s in order}}
-    ch = write_if_changed(os.path.join(VERIF, "coq", "Gen", "SerdeShapeGen.v"), "\n".join(out))
-    write_if_changed(os.path.join(VERIF, "work", "gen", "serde_shapes.json"), json.dumps(js, indent=1))
+    ch = write_if_changed(os.path.join(COQ_DIR, "Gen", "SerdeShapeGen.v"), "\n".join(out))
+    write_if_changed(os.path.join(GEN_WORK, "serde_shapes.json"), json.dumps(js, indent=1))
     print("serde shapes: %d gds types, %d lef types%s" % (len(js["gds"]["types"]), len(js["lef"]["types"]), " (regenerated)" if ch else ""))
 
 if __name__ == "__main__":
